@@ -284,3 +284,147 @@ Contract(
     properties=["C18"],
     note="True iff every world has a rank and it is non-negative",
 )
+
+
+# ---------------------------------------------------------------------------
+# C18: tpo2ranks -- a total preorder (list of disjoint layers) becomes a ranking
+# ---------------------------------------------------------------------------
+SStr = z3.SetSort(StrSort)
+LSS = L.list_theory(SStr)
+RF = z3.Function("rank_function", L.Int, L.Int)  # the callable passed in: a function of the layer number (TB-py)
+InLayers, _ = _IT.defpred_some("InLayers", [LSS.sort, StrSort, L.Int], lambda x: x[2], lambda x, i: z3.IsMember(x[1], LSS.at(x[0], i)), lambda x, i: LSS.at(x[0], i))
+enumS = L.enum_theory(StrSort)[0]
+
+
+def _tpo_disjoint(tpo):
+    i, j = z3.Ints("_td_i _td_j")
+    w = z3.Const("_td_w", StrSort)
+    return Forall(
+        [i, j, w],
+        [z3.IsMember(w, LSS.at(tpo, i)), LSS.at(tpo, j)],
+        z3.Implies(z3.And(0 <= i, i < LSS.len(tpo), 0 <= j, j < LSS.len(tpo), i != j, z3.IsMember(w, LSS.at(tpo, i))), z3.Not(z3.IsMember(w, LSS.at(tpo, j)))),
+        "tpo.layers.disjoint",
+    )
+
+
+def _ranked(r, tpo, upto, name, inner=None):
+    """every world of the first `upto` layers (and, of layer `upto`, the worlds in `inner`) has the rank of its layer"""
+    i = z3.Int("_tr_i_" + name)
+    w = z3.Const("_tr_w_" + name, StrSort)
+    v = _OI.wrap(z3.Select(r.val, w))
+    ok = z3.And(mem_Str(r.keys, w), z3.Not(v.isnone), v.val.t == RF(i))
+    out = [Forall([i, w], [z3.IsMember(w, LSS.at(tpo, i))], z3.Implies(z3.And(0 <= i, i < upto, z3.IsMember(w, LSS.at(tpo, i))), ok), "tpo.ranked." + name)]
+    return out
+
+
+def _tpo_outer(s, j, pre):
+    tpo = s.tpo.t
+    r = s.ranks
+    w = z3.Const("_to_w", StrSort)
+    if not isinstance(r, VDict):
+        return [j == 0]
+    return _ranked(r, tpo, j, "outer") + [Forall([w], [mem_Str(r.keys, w)], z3.Implies(mem_Str(r.keys, w), InLayers(tpo, w, j)), "tpo.keys.from.layers")]
+
+
+def _tpo_inner(s, j, pre):
+    tpo = s.tpo.t
+    r = s.ranks
+    ln = s.layer_num.t
+    lst = enumS(s.layer.t)
+    k = z3.Int("_ti_k")
+    w = z3.Const("_ti_w", StrSort)
+    v = lambda x: _OI.wrap(z3.Select(r.val, x))
+    cur = LStr.at(lst, k)
+    return _ranked(r, tpo, ln, "inner") + [
+        Forall([k], [LStr.at(lst, k)], z3.Implies(z3.And(0 <= k, k < j), z3.And(mem_Str(r.keys, cur), z3.Not(v(cur).isnone), v(cur).val.t == RF(ln))), "tpo.layer.so.far"),
+        Forall([w], [mem_Str(r.keys, w)], z3.Implies(mem_Str(r.keys, w), InLayers(tpo, w, ln + 1)), "tpo.keys.from.layers"),
+    ]
+
+
+def _tpo_post(c, r):
+    tpo = c.tpo.t
+    w = z3.Const("_tp_w", StrSort)
+    n = LSS.len(tpo)
+    return _ranked(r, tpo, n, "post") + [Forall([w], [mem_Str(r.keys, w)], z3.Implies(mem_Str(r.keys, w), InLayers(tpo, w, n)), "tpo2ranks.keys")]
+
+
+Contract(
+    "inference.preocf:tpo2ranks",
+    params={"tpo": TList(TSet(TStr)), "rank_function": TFunInt(RF)},
+    returns=RanksT,
+    locals={"ranks": RanksT},
+    requires=lambda c: [_tpo_disjoint(c.tpo.t)],
+    ensures=_tpo_post,
+    loops={0: LoopSpec("for (layer_num, layer) in enumerate(tpo*", _tpo_outer), 1: LoopSpec("for world in layer", _tpo_inner)},
+    properties=["C18"],
+    fuel=6,
+    note="every world of layer i gets rank_function(i), and only worlds of some layer are ranked (layers pairwise disjoint)",
+)
+
+
+# ---------------------------------------------------------------------------
+# C18: ranks2tpo -- a ranking becomes the list of its rank classes, lowest rank first
+# ---------------------------------------------------------------------------
+GroupsT = TDict(TSet(TStr), TInt)
+LIntL = L.LInt
+mem_I = L.mem_Int
+
+
+def _has_rank(ranks, w, k):
+    v = _OI.wrap(z3.Select(ranks.val, w))
+    return z3.And(mem_Str(ranks.keys, w), z3.Not(v.isnone), v.val.t == k)
+
+
+# SeenRank(keys, val, w, k, n): w is one of the first n worlds of the ranking and has rank k
+SeenRank, _ = _IT.defpred_some(
+    "SeenRank",
+    [LStr.sort, z3.ArraySort(StrSort, _OI.sort()), StrSort, L.Int, L.Int],
+    lambda x: x[4],
+    lambda x, p: z3.And(LStr.at(x[0], p) == x[2], z3.Not(_OI.wrap(z3.Select(x[1], x[2])).isnone), _OI.wrap(z3.Select(x[1], x[2])).val.t == x[3]),
+    lambda x, p: LStr.at(x[0], p),
+    step=True,
+)
+
+
+def _r2t_inv(s, j, pre):
+    rk = s.ranks
+    g = s.rank_groups
+    if not isinstance(g, VDict):
+        return [j == 0]
+    k = z3.Int("_r2_k")
+    w = z3.Const("_r2_w", StrSort)
+    grp = z3.Select(g.val, k)
+    return [
+        Forall([k, w], [z3.IsMember(w, grp)], z3.Implies(mem_I(g.keys, k), z3.IsMember(w, grp) == SeenRank(rk.keys, rk.val, w, k, j)), "r2t.groups"),
+        Forall([k, w], [SeenRank(rk.keys, rk.val, w, k, j)], z3.Implies(SeenRank(rk.keys, rk.val, w, k, j), z3.And(mem_I(g.keys, k), z3.IsMember(w, grp))), "r2t.groups.complete"),
+    ]
+
+
+def _r2t_post(c, r):
+    rk = c.ranks
+    S = c.ghost["levels"].t
+    p, q = z3.Ints("_r2p_p _r2p_q")
+    w = z3.Const("_r2p_w", StrSort)
+    n = LStr.len(rk.keys)
+    layer = LSS.at(r.t, p)
+    return [
+        LSS.len(r.t) == LIntL.len(S),
+        Forall([p, q], [LIntL.at(S, p), LIntL.at(S, q)], z3.Implies(z3.And(0 <= p, p <= q, q < LIntL.len(S)), LIntL.at(S, p) <= LIntL.at(S, q)), "ranks2tpo.levels.ascending"),
+        Forall([p, w], [z3.IsMember(w, layer)], z3.Implies(z3.And(0 <= p, p < LSS.len(r.t)), z3.IsMember(w, layer) == SeenRank(rk.keys, rk.val, w, LIntL.at(S, p), n)), "ranks2tpo.layers"),
+        Forall([w, q], [SeenRank(rk.keys, rk.val, w, q, n)], z3.Implies(SeenRank(rk.keys, rk.val, w, q, n), mem_I(S, q)), "ranks2tpo.every.rank.has.a.level"),
+    ]
+
+
+Contract(
+    "inference.preocf:ranks2tpo",
+    params={"ranks": RanksT},
+    returns=TList(TSet(TStr)),
+    locals={"rank_groups": GroupsT},
+    ensures=_r2t_post,
+    ghost_out={"levels": TList(TInt)},
+    ghost_wit=lambda c, r: {"levels": c._st.env["__sorted_last"]} if "__sorted_last" in c._st.env else {"levels": VList(LIntL.nil, TInt)},
+    loops={0: LoopSpec("for (world, rank) in ranks.items()", _r2t_inv)},
+    properties=["C18"],
+    fuel=7,
+    note="layer p is the set of worlds of rank levels[p]; the levels (ghost output) ascend and contain every rank that occurs; unranked worlds are in no layer",
+)
